@@ -36,9 +36,15 @@ RULE = ("corpus, then the definition-time table COMPLETELY (api incl. attrs.froz
         "preset or unset. Multiple inheritance: any non-root class may get a second direct base, a fresh plain mixin with empty "
         "__slots__ or with a __dict__, before or after the chain parent (systematic block: hooked/unhooked base x hook-less/"
         "hooked subclass x slots x mixin kind x order x {leaf, one level up, below a plain class} x redefinition incl. a redefined "
-        "setters.frozen field; random chains: 25% of classes). Hooks returning None are among the hook identities. Non-trivial = a definition error, or some step makes callbacks or "
+        "setters.frozen field; random chains: 25% of classes). Hooks returning None are among the hook identities. Hook expressions are TREES: an on_setattr value is a bare callable or a "
+        "list/tuple/setters.pipe(...) whose members are setters or again setters.pipe(...) objects, nested at every position "
+        "(first / middle / last, followed or not by further hooks) to depth <=4, with empty pipes, the same hook object and the "
+        "same pipe object repeated, built-in setters and setters.frozen inside nested pipes (17 fixed shapes in the systematic "
+        "block at field level, 4 at class level, random trees for ~25% of hooked fields / classes); user hooks do not commute (each "
+        "wraps its input into its own term) and the trace logs every call with the intermediate value it received. Non-trivial = a definition error, or some step makes callbacks or "
         "raises; distinct = distinct case")
 ASSUMPTIONS = [
+    "the model works on the depth-first left-to-right flattening of each hook expression; that calling nested pipe objects equals running the flattening is proved (C06_tree_runs_flat) and diff-tested; NO_OP or other non-callables INSIDE a list/pipe (a TypeError at assignment time) and falsy callable hook objects are not generated",
     "decorator-object reuse is harness-only variation: the model is a function of the class specification alone, so any dependence of a class on what its decorator object was applied to before shows up as a disagreement / violation",
     "init=False fields: `ctor` (value real construction stores for f=v) is only observed and demanded for init=True fields; default values only accompany init=False",
     "user hooks, converters and validators are instrumented closures returning symbolic strings; user callbacks raise only when the fault position says so",
@@ -57,7 +63,9 @@ LEVEL_TEXT = (
     "attrs.wrap, _ClassBuilder.__init__ (normalisation), add_setattr (sa_attrs, generated __setattr__), _make_init_script's "
     "frozen checks, _patch_original_class/_create_slots_class (reset of an inherited attrs __setattr__) and setters.pipe/frozen/"
     "validate/convert, for ARBITRARY pipes, field lists, class chains, histories and fault positions: C06_stores_chain(_user,"
-    "_assign) (operational pipe = left-to-right fold, callbacks = declarative run); C06_failure_atomic_pipe/_frozen/_step and "
+    "_assign) (operational pipe = left-to-right fold, callbacks = declarative run); C06_tree_runs_flat, C06_flatten_order, C06_flatten_flat, C06_stores_tree (hook expressions "
+    "as trees of nested setters.pipe: nested evaluation = the flat left-to-right pipe of the leaves, under faults too); "
+    "C06_failure_atomic_pipe/_frozen/_step and "
     "C06_failure_atomic (fault at any position: exactly the prefix of callbacks ran, its exception propagates, instance state "
     "unchanged; over whole histories, on any class); C06_failure_type_independent (the raised type -- KeyError, LookupError, "
     "AttributeError, TypeError, ValueError, StopIteration, non-Exception BaseException, user error -- only changes the type that "
@@ -87,16 +95,65 @@ def U(i):
     return {"user": {"i": i}}
 
 
-def chain(*ss):
-    return {"chain": {"l": list(ss)}}
+def leaf(s):
+    return {"leaf": {"s": s}}
 
 
-def lst(*ss):
-    return {"list": {"l": list(ss)}}
+def _is_tree(m):
+    return isinstance(m, dict) and ("leaf" in m or "pipe" in m)
+
+
+def P(*ms):
+    """a pipe node; members are setters (wrapped into leaves) or trees"""
+    return {"pipe": {"l": [m if _is_tree(m) else leaf(m) for m in ms]}}
+
+
+def chain(*ms):
+    """field-level list form: on_setattr=[...]"""
+    return {"hook": {"h": P(*ms)}}
+
+
+def lst(*ms):
+    return {"hook": {"h": P(*ms)}}
 
 
 def bare(s):
-    return {"bare": {"s": s}}
+    """a bare callable"""
+    return {"hook": {"h": leaf(s)}}
+
+
+def flatten(tree):
+    if "leaf" in tree:
+        return [tree["leaf"]["s"]]
+    return [s for m in tree["pipe"]["l"] for s in flatten(m)]
+
+
+def depth(tree):
+    return 0 if "leaf" in tree else 1 + max([depth(m) for m in tree["pipe"]["l"]] or [0])
+
+
+def nested_ons(h):
+    """hook expressions with pipes nested at every position and depth; the hooks do not commute (each wraps the value
+    it gets into its own term), so any re-ordering shows in the stored value and in the logged intermediate values"""
+    a, b, c, d = U(h), U(h + 1), U(h + 2), U(h + 3)
+    return [chain(P(a, b), c), chain(a, P(b, c), d), chain(P(P(a, b), c), d), chain(a, P(b, c)), chain(P(a, b), P(c, d)),
+            chain(P(a, b), c, P(a, b)), chain(P(), a), chain(a, P(), b), chain(P("convert", "validate"), a),
+            chain(a, P("convert", P("validate", b)), c), chain(P(a), P(P(b)), c), chain(a, a, P(a, b), a),
+            chain(P(a, "frozen"), b), chain(P(a, P(b, "frozen")), c), bare(a), bare("convert"),
+            {"hook": {"h": P(P(a, b), c)}}]
+
+
+def gen_tree(rng, h, d=0):
+    """a random hook expression"""
+    k = rng.choice([1, 2, 2, 3, 4]) if d == 0 else rng.choice([0, 1, 2, 2, 3])
+    ms = []
+    for _ in range(k):
+        if d < 3 and rng.random() < 0.35:
+            ms.append(gen_tree(rng, h, d + 1))
+        else:
+            ms.append(rng.choice([U(h), U(h + 1), U(h + 2), U(h), "convert", "validate", U(NONE_HOOK + h % 50)] +
+                                 (["frozen"] if rng.random() < 0.1 else [])))
+    return P(*ms)
 
 
 def field_ons(h):
@@ -105,13 +162,15 @@ def field_ons(h):
             chain("convert"), chain("convert", "validate"), chain("validate", "convert"), chain(U(h), "convert"),
             chain("convert", U(h)), chain(U(h), "frozen"), chain("frozen", U(h)), chain(U(h), "validate", U(h + 1)),
             chain("convert", "convert"), chain("validate", "validate", U(h)), chain(U(NONE_HOOK + h % 50)),
-            chain(U(NONE_HOOK + h % 50), "convert", U(h))]
+            chain(U(NONE_HOOK + h % 50), "convert", U(h))] + nested_ons(h + 20)
 
 
 def cls_ons(h):
     return ["unset", "noop", bare(U(h)), bare("validate"), bare("convert"), bare("frozen"), lst(U(h), U(h + 1)),
             lst("convert", "validate"), lst("validate"), lst("convert"), lst(), lst(U(h), "frozen"), lst("validate", U(h)),
-            lst("convert", U(h), "validate"), bare(U(NONE_HOOK + h % 50))]
+            lst("convert", U(h), "validate"), bare(U(NONE_HOOK + h % 50)), lst(P(U(h), "convert"), U(h + 1)),
+            lst(U(h), P("convert", "validate"), U(h + 1)), lst(P(P("convert", "validate"), U(h)), U(h + 1)),
+            {"hook": {"h": P("validate")}}]
 
 
 def conv_json(kind):
@@ -279,9 +338,15 @@ def systematic_chains():
 
 
 def gen_field(rng, name, ci, hid):
-    on = rng.choice(["unset"] * 6 + field_ons(hid))
+    on = rng.choice(["unset"] * 8 + field_ons(hid) + [{"hook": {"h": gen_tree(rng, hid)}} for _ in range(6)])
     f = mk_field(name, ci, on, rng.choice(CONV_KINDS + [None]), rng.choice([0, 0, 1, 2]))
     f["on_form"] = rng.choice(["list", "bare", "tuple", "pipe"])
+    if f["on_form"] == "bare":
+        # a one-member list written as the bare callable
+        f["on_form"] = "list"
+        t = on["hook"]["h"] if isinstance(on, dict) else None
+        if t is not None and "pipe" in t and len(t["pipe"]["l"]) == 1 and "leaf" in t["pipe"]["l"][0]:
+            f["onSet"] = {"hook": {"h": t["pipe"]["l"][0]}}
     f["validator_form"] = rng.choice(["single", "list"])
     if on == "unset" and rng.random() < 0.2:
         f["pass_none"] = True
@@ -305,7 +370,7 @@ def gen_chain(rng, dirty=False):
             continue
         define = rng.random() < 0.5
         hid += 10
-        co = rng.choice(["unset"] * 5 + cls_ons(hid * 10))
+        co = rng.choice(["unset"] * 6 + cls_ons(hid * 10) + [{"hook": {"h": gen_tree(rng, hid * 10)}} for _ in range(3)])
         pool = list(NAMES)
         nf = rng.choice([0, 1, 1, 2, 2, 3]) if not leaf or classes else rng.choice([1, 2, 2, 3])
         fields = [gen_field(rng, n, ci, hid * 10 + 5 + 2 * k) for k, n in enumerate(rng.sample(pool, nf))]
@@ -463,12 +528,22 @@ def nontrivial(case, model):
 def _on_kind(on):
     if isinstance(on, str):
         return on
-    k = next(iter(on))
-    l = on[k].get("l")
-    if l is None:
-        s = on[k]["s"]
-        return "bare:" + (s if isinstance(s, str) else "user")
-    return f"{k}{len(l)}:" + "".join((s if isinstance(s, str) else "user")[0] for s in l)
+    t = on["hook"]["h"]
+    fl = flatten(t)
+    return ("bare:" if "leaf" in t else f"d{depth(t)}:") + "".join((s if isinstance(s, str) else "user")[0] for s in fl)
+
+
+def _tree_shape(on):
+    if isinstance(on, str):
+        return "none"
+    t = on["hook"]["h"]
+    if "leaf" in t:
+        return "bare"
+    ms = t["pipe"]["l"]
+    if all("leaf" in m for m in ms):
+        return "flat"
+    last_nested = max(i for i, m in enumerate(ms) if "pipe" in m)
+    return f"nested-depth{depth(t)}" + ("-followed" if last_nested < len(ms) - 1 else "-last")
 
 
 def dist(case, obs):
@@ -489,6 +564,8 @@ def dist(case, obs):
         "leaf_clsOn": _on_kind(leaf["clsOn"]),
         "field_onSet": ",".join(sorted({_on_kind(f["onSet"]) for f in leaf["fields"]}))[:60],
         "conv": ",".join(sorted({str(f.get("conv_kind")) for c in cl for f in c["fields"]})),
+        "tree": ",".join(sorted({_tree_shape(f["onSet"]) for c in cl for f in c["fields"]} |
+                                {_tree_shape(c["clsOn"]) for c in cl})),
         "hist_len": len(case["history"]),
         "fault": fault_kind,
         "fault_step": case["fault"][0] if case.get("fault") else -1,
@@ -574,16 +651,39 @@ def shrink(case):
                     if k == "conv":
                         c2[i]["fields"][j].pop("conv_kind", None)
                     yield dict(case, classes=c2)
-            on = f["onSet"]
-            if isinstance(on, dict) and len(on["chain"]["l"]) > 1:
-                for d in range(len(on["chain"]["l"])):
-                    c2 = copy.deepcopy(cl)
-                    del c2[i]["fields"][j]["onSet"]["chain"]["l"][d]
-                    yield dict(case, classes=c2)
+            for t2 in _shrink_tree(f["onSet"]):
+                c2 = copy.deepcopy(cl)
+                c2[i]["fields"][j]["onSet"] = t2
+                yield dict(case, classes=c2)
+        for t2 in _shrink_tree(c["clsOn"]):
+            c2 = copy.deepcopy(cl)
+            c2[i]["clsOn"] = t2
+            yield dict(case, classes=c2)
     if not case["preset"]:
         yield dict(case, preset=True)
     if not case["runValidators"]:
         yield dict(case, runValidators=True)
+
+
+def _shrink_tree(on):
+    """smaller hook expressions: drop a member anywhere, splice a nested pipe into its parent"""
+    if not isinstance(on, dict):
+        return
+    t = on["hook"]["h"]
+
+    def variants(t):
+        if "leaf" in t:
+            return
+        ms = t["pipe"]["l"]
+        for i, m in enumerate(ms):
+            yield {"pipe": {"l": ms[:i] + ms[i + 1:]}}
+            if "pipe" in m:
+                yield {"pipe": {"l": ms[:i] + m["pipe"]["l"] + ms[i + 1:]}}
+                for v in variants(m):
+                    yield {"pipe": {"l": ms[:i] + [v] + ms[i + 1:]}}
+
+    for v in variants(t):
+        yield {"hook": {"h": v}}
 
 
 def neighbours(case, rng):
